@@ -8,6 +8,7 @@ text predicts, after every single operation, what Gin must report through its pu
 """
 import itertools
 import sys
+import threading
 import types
 
 from hypothesis import strategies as st
@@ -27,7 +28,8 @@ RULE = ('A case is an interpreted op list over {finalize; unlock_config block wi
         '`gin.unlock_config()` manager object decorating a function that re-enters itself 1-3 '
         'levels deep, the innermost level running a nested op list and leaving normally, by an '
         'exception through every level, or by one the level above catches; called 1-2 times; '
-        'bind_parameter (str/tuple key, 2 spellings, scoped); '
+        'a thread block running a nested op list in a fresh thread that is started and joined '
+        'at once; bind_parameter (str/tuple key, 2 spellings, scoped); '
         'parse_config (flat, block, two statements, macro definition, %macro reference top-level '
         'or nested, unevaluated @M/gin.macro, @unknown() placeholder via skip_unknown=True '
         'top-level or nested, each of those three also as a dict key / inside a tuple dict key / as a '
@@ -91,6 +93,9 @@ ASSUMPTIONS = [
     'ones through recursion of the decorated function -- is an unlock_config block of its own; '
     'one manager object is never re-used as a `with` target (a generator-based manager is '
     'one-shot there, so pristine refuses it)',
+    'the lock is one process-wide state (the anchor is a module-level boolean): ops run in a '
+    'fresh, immediately joined worker thread are held to the same model as on the main thread -- '
+    'no concurrency, so no schedule; config scopes are per thread and play no role here',
     'interactive mode (gin.config.interactive_mode(), always the block form, never nested) only '
     'waives duplicate-name checks: it is not a way out of the lock, so every locked mutator must '
     'still raise RuntimeError and change nothing (a re-registered name must still resolve to the '
@@ -117,6 +122,8 @@ FLOORS = {
     'hyp:unlock:exit-by-exception-while-locked': (0.05, 'gen:hyp'),
     'hyp:unlock:nested-while-locked': (0.03, 'gen:hyp'),
     'hyp:unlock:decorator-recursive-while-locked': (0.03, 'gen:hyp'),
+    'hyp:locked:mutator-rejected-in-worker-thread': (0.03, 'gen:hyp'),
+    'hyp:unlock:in-worker-thread-while-locked': (0.01, 'gen:hyp'),
     'hyp:locked:mutator-rejected': (0.15, 'gen:hyp'),
     'hyp:finalize:ok': (0.30, 'gen:hyp'),
     'hyp:finalize:twice': (0.05, 'gen:hyp'),
@@ -258,6 +265,7 @@ class _Run:
     self.locked_entry_depth = 0     # number of enclosing unlock blocks entered while locked
     self.special_exit_seen = False
     self.interactive = False        # inside a `with gin.config.interactive_mode():` block
+    self.thread_depth = 0           # > 0 while ops run in a worker thread
     self.alt_count = 0
     self.observe('initial')
 
@@ -363,6 +371,8 @@ class _Run:
     self.observe(f'locked:{what}')
     self.labels.add('locked:mutator-rejected')
     self.labels.add(f'locked:{what}-rejected')
+    if self.thread_depth:
+      self.labels.add('locked:mutator-rejected-in-worker-thread')
 
   def mutation_attempt(self):
     if self.special_exit_seen:
@@ -381,6 +391,8 @@ class _Run:
         self.op_interactive(op, depth)
       elif kind == 'unlock_rec':
         self.op_unlock_rec(op, depth)
+      elif kind == 'thread':
+        self.op_thread(op, depth)
       elif kind == 'bind':
         self.op_bind(op)
       elif kind == 'parse':
@@ -489,6 +501,34 @@ class _Run:
       self.config.setdefault(key, {})[param] = value
     self.labels.add('parse:' + op[1])
     self.observe('parse')
+
+  def op_thread(self, op, depth):
+    """['thread', body_ops]: the body runs in a fresh thread, started and joined at once (no
+    concurrency); violations and exceptions are carried back.  The lock is one process-wide
+    state, so the model is the same whichever thread asks: a config finalized on one thread is
+    locked for every thread, an unlock_config block entered in a worker unlocks and restores
+    for all, and config_is_locked() reads the same value everywhere."""
+    box = {}
+
+    def work():
+      try:
+        self.observe('thread:started')
+        self.exec_ops(op[1], depth)
+        self.observe('thread:before-exit')
+      except BaseException as e:  # pylint: disable=broad-except
+        box['exc'] = e
+
+    self.thread_depth += 1
+    try:
+      t = threading.Thread(target=work, name='c12-worker')
+      t.start()
+      t.join()
+    finally:
+      self.thread_depth -= 1
+    if 'exc' in box:
+      raise box['exc']
+    self.labels.add('thread:block')
+    self.observe('thread:joined')
 
   def op_interactive(self, op, depth):
     """Body inside `with gin.config.interactive_mode():`.  Interactive mode waives the duplicate
@@ -811,6 +851,8 @@ class _Run:
     self.labels.add('finalize:ok')
     if self.hooks:
       self.labels.add('finalize:hooks-ran')
+    if self.thread_depth:
+      self.labels.add('finalize:ok-in-worker-thread')
     if binders:
       self.labels.add('finalize:hook-bindings-applied')
     if self.locked_entry_depth:
@@ -855,6 +897,8 @@ class _Run:
     self.observe('unlock:exit-by-' + left_by)
     # ---- labels / non-trivial rule
     self.labels.add('unlock:exit-' + left_by)
+    if entry and self.thread_depth:
+      self.labels.add('unlock:in-worker-thread-while-locked')
     if entry:
       self.labels.add('unlock:while-locked')
     if exit_kind in RAISING and entry:
@@ -1097,6 +1141,23 @@ def sweep_variants(tier):
                ['unlock', [['bind', 0, 2, 1, sp, 5], mm], EXIT_NORMAL], ['bind', 0, 2, 0, 0, 6],
                mm, ['finalize'], ['clear', 0], ['bind', 0, 2, 0, sp, 7], ['finalize', 1], mm,
                ['unlock', [], EXIT_RAISE], mm])
+  # (8) the lock is process-wide: every mutator form attempted from a fresh thread on a config
+  #     finalized on the main thread (and the other way round), inside an unlock block of the
+  #     other thread, and unlock blocks entered and left (every exit path) in a worker
+  for m in muts:
+    tm = ['thread', [m]]
+    add([['register', 0], _BIND1, ['finalize'], tm, ['unlock', [tm], EXIT_NORMAL], tm,
+         ['thread', [['unlock', [m], EXIT_RAISE]]], m, tm])
+    add([_BIND1, ['thread', [['finalize']]], m, tm, ['thread', [['clear', 0]]], m,
+         ['thread', [['finalize', 1], m]], m])
+  for exit_kind in (EXIT_NORMAL, EXIT_RAISE, EXIT_BASE, EXIT_GINCALL, EXIT_BREAK):
+    for body in ([], [_BIND1], [['finalize']], [['unlock', [_BIND1], EXIT_RAISE], _BIND2]):
+      for prefix in ([], [['finalize']], [['thread', [['finalize']]]]):
+        add(prefix + [['thread', [['unlock', body, exit_kind]]], _BIND2, ['thread', [_BIND2]]])
+  for levels in (1, 2, 3):
+    for exit_kind in (EXIT_NORMAL, EXIT_RAISE, EXIT_CAUGHT):
+      add([['finalize'], ['thread', [['unlock_rec', levels, [_BIND1], exit_kind, 1]]], _BIND2,
+           ['thread', [_BIND2]]])
   # (7) one unlock_config manager object used as a decorator on a self-re-entering function:
   #     levels x exit path x (unlocked | locked) x body x 1-2 calls, then a mutation attempt
   for levels in (1, 2, 3):
@@ -1154,6 +1215,7 @@ def _ops(depth):
                                  EXIT_GINCALL, EXIT_BREAK])
     pairs = pairs + [(5 if depth == 0 else 2, st.tuples(st.just('unlock'), body, exit_kind)),
                      (2, st.tuples(st.just('interactive'), body)),
+                     (3, st.tuples(st.just('thread'), body)),
                      (2, st.tuples(st.just('unlock_rec'), st.integers(1, 3), body,
                                    st.sampled_from([EXIT_NORMAL, EXIT_RAISE, EXIT_BASE,
                                                     EXIT_CAUGHT]), st.integers(1, 2)))]
@@ -1200,6 +1262,9 @@ def _scenario(draw):
                 draw(st.integers(1, 2))])
   else:
     ops.append(['unlock', body, exit_kind])
+  if draw(st.booleans()):
+    # the restored lock holds for every thread
+    ops.append(['thread', draw(st.lists(_ops(1), min_size=1, max_size=2))])
   if draw(st.booleans()):
     # interactive mode is not a way out of the restored lock
     reg = ['register', draw(st.integers(0, 2))] + draw(st.sampled_from([[], [1, 0], [1, 1], [2], [3]]))
